@@ -159,7 +159,8 @@ inductive AReg (α : Type) where
   | circle (c : Pt α) (r : α)
   | ellipse (c : Pt α) (w h : α) (a : Ang α)
   | rect (c : Pt α) (w h : α) (a : Ang α)
-  | polygon (vs : List (Pt α))                  -- also `RegularPolygonPixelRegion` (its `vertices`)
+  | polygon (vs : List (Pt α))
+  | regularPolygon (c : Pt α) (vs : List (Pt α))   -- `RegularPolygonPixelRegion`: its `center` and computed `vertices`
   | circleAnnulus (c : Pt α) (r1 r2 : α)
   | ellipseAnnulus (c : Pt α) (w1 h1 w2 h2 : α) (a : Ang α)
   | rectAnnulus (c : Pt α) (w1 h1 w2 h2 : α) (a : Ang α)
@@ -181,6 +182,8 @@ def simpleArtist : AReg α → Pt α → Option (Patch α)
   | .rect c w h a, o => some (.rectangle (minusOrigin (Rect.mk c w h a.dir).lowerLeft o) w h a.deg)
   -- polygon.py: xy = vstack([vertices.x − origin[0], vertices.y − origin[1]]).T
   | .polygon vs, o => some (.polygon (vs.map fun v => minusOrigin v o))
+  -- RegularPolygonPixelRegion inherits PolygonPixelRegion.as_artist
+  | .regularPolygon _ vs, o => some (.polygon (vs.map fun v => minusOrigin v o))
   -- line.py: Arrow(start.x − origin[0], start.y − origin[1], end.x − start.x, end.y − start.y)
   | .line a b, o => some (.arrow (a.x - o.x) (a.y - o.y) (b.x - a.x) (b.y - a.y))
   -- point.py: Line2D([center.x − origin[0]], [center.y − origin[1]])
@@ -205,7 +208,7 @@ def makeAnnulusPath (pathInner pathOuter : List (Pt α) × List Nat) : List (Pt 
 
 /-- `region.center` (`none` = the class has no such attribute). -/
 def AReg.center : AReg α → Option (Pt α)
-  | .circle c _ | .ellipse c _ _ _ | .rect c _ _ _ | .point c | .text c _ => some c
+  | .circle c _ | .ellipse c _ _ _ | .rect c _ _ _ | .point c | .text c _ | .regularPolygon c _ => some c
   | .circleAnnulus c _ _ | .ellipseAnnulus c _ _ _ _ _ | .rectAnnulus c _ _ _ _ _ => some c
   | _ => none
 
@@ -260,6 +263,7 @@ def AReg.toPReg (i : Include) : AReg α → PReg α
   | .ellipse c w h a => .ellipse ⟨c, w, h, a.dir⟩ i
   | .rect c w h a => .rect ⟨c, w, h, a.dir⟩ i
   | .polygon vs => .polygon ⟨vs⟩ i
+  | .regularPolygon _ vs => .polygon ⟨vs⟩ i
   | .circleAnnulus c r1 r2 => .circleAnnulus c r1 r2 i
   | .ellipseAnnulus c w1 h1 w2 h2 a => .ellipseAnnulus c w1 h1 w2 h2 a.dir i
   | .rectAnnulus c w1 h1 w2 h2 a => .rectAnnulus c w1 h1 w2 h2 a.dir i
